@@ -1758,6 +1758,8 @@ func runC14(c *Ctx) int {
 	// cases stop at their first mismatch, which lowers the call counts but not
 	// the per-feature case counts.
 	q := func(quick, thorough int) int64 { return int64(c.Pick(quick, thorough)) }
+	c14CLI(c, run)
+	run.Floor("cli_targets_runs", int64(c.Pick(5, 50)))
 	run.Floor("targeter_calls", q(50000, 750000))
 	run.Floor("earlier_target_recompares", q(50000, 750000))
 	run.Floor("cases_http_default_key_with_spare_capacity_repeated_by_2+_targets", q(300, 4000))
